@@ -11,7 +11,7 @@ META = {
             'from their MIR switch arms; the writer switches on raw std discriminants) are mutually inverse on the 18 portable kinds, both default to Other, and call serde at the same '
             'integer type (defect D1, fixed); the 128-bit id writer/reader use the same byte order and width; optional fields (cancel trace context, deadline) have defaults in the generated '
             'visitors; every wire type derives both directions; the in-memory channels and the serde transport forward exactly the item they are given and the inner stream\'s items unchanged, '
-            'the channel constructors cross-wire the two endpoints, and poll_ready / poll_flush / poll_close of the wrapping transports perform the same-named operation of the sink they wrap (closing really closes). NOT decided (not applicable to static analysis of tarpc): framing under fragmentation, ordering, end-of-stream, '
+            'the channel constructors cross-wire the two endpoints, and poll_ready / poll_flush / poll_close of the wrapping transports perform the same-named operation of the sink they wrap (closing really closes); a hand-written decoder of a trace-context type returns exactly what was decoded (C15.exact). NOT decided (not applicable to static analysis of tarpc): framing under fragmentation, ordering, end-of-stream, '
             'codec round-trips of bodies — these live in tokio-util, tokio-serde, serde_json and bincode over runtime byte strings.',
     'note': 'Trusted: serde, tokio-serde, tokio-util codec, bincode/serde_json, tokio and futures mpsc channels (FIFO, no loss).',
 }
